@@ -1401,7 +1401,10 @@ def merge_allof(doc, schemas):
     bounds, type/enum intersection); what cannot be merged stays in a residual "allOf"."""
     out, residual, closed_sets = {}, [], []
     work = list(schemas)
+    fuel = 4000
     while work:
+        fuel -= 1
+        if fuel <= 0: raise Unsat("allOf does not bottom out (alias cycle)")
         s = deref(doc, work.pop(0))
         if s is True: continue
         if s is False: raise Unsat("false in allOf")
@@ -1469,11 +1472,16 @@ class _Gen:
         self.branch = None
         if mode.startswith("all_present@"): self.branch = int(mode.split("@")[1]); self.mode = "all_present"
         self.H = _Heights(doc)
+        # work bound: retries multiply through nested unions / allOf (whose depth does not decrease), so a document on which
+        # the generator keeps failing (alias cycles, unsatisfiable compositions) would otherwise cost exponential time
+        self.steps = 0; self.budget = 200000
 
     def coin(self, p): return self.rng.random() < p
 
     def gen(self, s, depth):
         rng, mode = self.rng, self.mode
+        self.steps += 1
+        if self.steps > self.budget: raise Unsat("generator work bound reached")
         if s is True: return self.any_value(depth)
         if s is False: raise Unsat("false schema")
         if not isinstance(s, dict): raise Unsat("not a schema")
